@@ -213,7 +213,8 @@ class MCNP_Object(ABC):
         ret = []
         for line in strings:
             if line.strip():
-                buffer = wrapper.wrap(line)
+                # a wrapped line of only blanks would end the block for MCNP
+                buffer = [part for part in wrapper.wrap(line) if part.strip()]
                 if len(buffer) > 1:
                     warning = LineExpansionWarning(
                         f"The line exceeded the maximum length allowed by MCNP, and was split. The line was:\n{line}"
